@@ -176,6 +176,22 @@ def run_driver(ctx, binp, mode, outfile, infile=None, n=None, extra_env=None, ti
     except subprocess.TimeoutExpired:
         raise Infra("driver timeout: %s mode=%s" % (binp, mode))
     if r.returncode != 0 and not allow_fail:
+        # The generator part of a driver also calls the code under test (to build inputs).  If that call panics the process
+        # dies after flushing what it recorded (deferred close).  The recorded events are still judged - the deviation
+        # normally is among them - and the premature end is noted; only a driver that recorded nothing is an infra error.
+        died_in_code = "panic:" in (r.stdout + r.stderr) and "verif:" not in (r.stdout + r.stderr).split("panic:", 1)[1][:200]
+        recorded = os.path.exists(outfile) and os.path.getsize(outfile) > 0
+        if mode == "record" and died_in_code and recorded:
+            try:
+                read_ndjson(outfile)
+            except Exception:
+                lines = open(outfile).read().split("\n")       # drop a torn last line
+                open(outfile, "w").write("\n".join(lines[:-1]) + "\n")
+            m = re.search(r"panic: (.{0,200})", r.stdout + r.stderr)
+            ctx.notes.append("driver %s ended early: the code under test panicked inside the input generator (%s); events recorded so far are judged"
+                             % (os.path.basename(binp), m.group(1) if m else "?"))
+            ctx.log("driver ended early (panic of the code under test inside the generator); judging the recorded events")
+            return r
         raise Infra("driver failed (%s mode=%s) rc=%d:\n%s\n%s" % (binp, mode, r.returncode, r.stdout[-3000:], r.stderr[-3000:]))
     return r
 
